@@ -445,6 +445,11 @@ func PC02(args []string) string {
 	if strings.HasPrefix(r.Stage, "harness-error") {
 		return r.Stage
 	}
+	if flash {
+		if why := flashVsBare(img, lo, hi, ops, r); why != "" {
+			return why
+		}
+	}
 	if r.Stage != "ok" {
 		if r.Leftover {
 			return "FAIL output-file-written-although-" + strings.ReplaceAll(r.Stage, " ", "-")
@@ -480,6 +485,58 @@ func PC02(args []string) string {
 			}
 		}
 		return "FAIL invalid-output " + why
+	}
+	return "ok"
+}
+
+// flashVsBare: the descriptor around the BIOS region changes nothing of what the operations do to
+// it: the run on the flash image ends at the same stage as the run on the bare BIOS region, and when
+// both save, the saved region is the same. (In particular an edit that cannot fit fails on both.)
+func flashVsBare(img []byte, lo, hi int, ops []EOp, r Result) string {
+	bare := append([]EOp{}, ops...)
+	for i := range bare {
+		if bare[i].Kind == "cfv" {
+			if bare[i].Off < uint64(lo) {
+				return ""
+			}
+			bare[i].Off -= uint64(lo)
+		}
+	}
+	rb, pan := runEditCatch(append([]byte{}, img[lo:hi]...), bare)
+	if pan != nil || strings.HasPrefix(rb.Stage, "harness-error") {
+		return ""
+	}
+	if rb.Stage != r.Stage {
+		return "FAIL flash-image-run-ends-with-" + strings.ReplaceAll(r.Stage, " ", "-") + "-but-its-bios-region-alone-with-" + strings.ReplaceAll(rb.Stage, " ", "-")
+	}
+	if r.Stage == "ok" && len(r.Out) == len(img) && string(r.Out[lo:hi]) != string(rb.Out) {
+		return "FAIL flash-image-saves-another-bios-region-than-the-bare-run"
+	}
+	return ""
+}
+
+// p_c02_nofit <img> <op>...: the inserted file is larger than every top-level volume and its target
+// selects exactly one thing, so the operations succeed, assembling runs out of space, save reports
+// the error and writes no output file - on a bare BIOS region and inside a flash image alike.
+func PC02NoFit(args []string) string {
+	img := UnH(args[0])
+	ops, ok := ParseTokens(args[1:])
+	if !ok {
+		return "harness-error bad-op-token"
+	}
+	lo, hi, flash := BiosRange(img)
+	if ValidImage(img[lo:hi]) != "" || (flash && FlashRegionsOK(img) != "") {
+		return "skip"
+	}
+	r := RunEdit(img, ops)
+	if strings.HasPrefix(r.Stage, "harness-error") {
+		return r.Stage
+	}
+	if r.Leftover {
+		return "FAIL output-file-written-although-the-edit-cannot-fit stage=" + strings.ReplaceAll(r.Stage, " ", "-")
+	}
+	if r.Stage != "err-save" {
+		return "FAIL edit-that-cannot-fit-ends-with-" + strings.ReplaceAll(r.Stage, " ", "-") + "-instead-of-an-out-of-space-error-at-save"
 	}
 	return "ok"
 }
@@ -677,7 +734,7 @@ func RegisterAll() {
 	for k, v := range map[string]Op{
 		"flat": OpFlat, "createfv": OpCreateFv,
 		"edit": OpEdit, "editvalid": OpEditValid, "find": OpFind, "findx": OpFindX, "p_find_full": PFindFull, "valid": OpValid, "guidstr": OpGuidStr, "guidparse": OpGuidParse,
-		"p_c02": PC02, "p_c03": PC03, "p_c02_align": PC02Align, "p_c02_shrink": PC02Shrink, "p_c02_exact": PC02Exact, "p_c03_big": PC03Big, "p_c03_ro": PC03RO, "p_guid": PGuid,
+		"p_c02": PC02, "p_c03": PC03, "p_c02_align": PC02Align, "p_c02_shrink": PC02Shrink, "p_c02_exact": PC02Exact, "p_c02_nofit": PC02NoFit, "p_c03_big": PC03Big, "p_c03_ro": PC03RO, "p_guid": PGuid,
 	} {
 		Register(k, v)
 	}
